@@ -250,6 +250,12 @@ def run(a, res):
                 bodies["none"] += 1
                 if m.timed_out:
                     res.count("client_timeout")
+                    # bounded progress: the (last) fetch of this URL finished long ago, yet this client, whose request squid
+                    # took, got not a single byte for >= 30 more seconds on an open connection: neither the response nor an error
+                    dones = [getattr(q, "wall_resp_done", None) for q in oreqs]
+                    if dones and all(d is not None for d in dones) and rec.get("t_done", 0) - max(dones) >= 30.0 and rec["req_id"] in started:
+                        res.violation(f"collapsed-client-never-answered:{kind}", f"cfg={c['cfg']}: request {rec['req_id']} (handled by {started[rec['req_id']][1]}) received nothing for "
+                                      f"{rec['t_done'] - max(dones):.0f} s after the origin had finished answering {len(oreqs)} fetch(es) of {path}; connection still open", wit(c))
                 continue
             rid = m.header("X-Verif-Rid")
             if rid is None:
